@@ -70,11 +70,15 @@ PROVED = {
          "classes or the never-tolerated kinds; the size limit is enforced under every tolerance setting. PARTIAL: monotonicity (strict items are a "
          "prefix of every more tolerant parse) and the exact error kind/offset per injected fault are covered by the correspondence groups over all 8 "
          "tolerance subsets, not proved.", ""),
- "C03": ("Theorem C03_tag_mirrors_bytes (per tag, every configuration/state/input): the item's offset is the cursor, the id decoded there is the "
-         "item's id, the input splits as header ++ payload ++ rest with the cursor advancing exactly over them, a master's payload part is empty and an "
-         "element's value is the documented decoding of its payload; the buffered machine reads the same tags at the same offsets for every "
-         "chunking/capacity (C04_refines). PARTIAL: the run-level statements (End/Full items report their Start's offset, tiling over a whole run) "
-         "are covered by correspondence with an independent re-decoder at every reported offset, not proved.", ""),
+ "C03": ("Theorems: per tag (C03_tag_mirrors_bytes, every configuration/state/input): the item's offset is the cursor, the id decoded there is the item's "
+         "id, the input splits as header ++ payload ++ rest with the cursor advancing exactly over them, a master's payload part is empty, an element's "
+         "value is the documented decoding of its payload. Run level (Proofs/Tiling.v): C03_run_tiles — for every configuration with nothing buffered, "
+         "every input and every call sequence, the non-End items emitted before the first error tile the input from offset 0: each starts where the "
+         "previous one's header (masters) or payload (elements) ends, each segment is id vint ++ size vint (++ payload of the announced length), no byte "
+         "skipped or read twice; C03_end_offsets — every End carries exactly the offset of the Start it closes, implied ancestors of a mid-document "
+         "start carry 0 (all call sequences incl. try_recover, all tolerances); C03_buffered_tiles_and_offsets — complete runs with buffered sets: a Full "
+         "item carries its Start's offset and the unrolled run tiles the input (via C08's simulation). The buffered machine reads the same for every "
+         "chunking/capacity (C04_refines). After an error tiling is not claimed (the offending element's bytes are consumed, try_recover skips).", ""),
  "C18": ("Theorems over a Gallina model of the derive pipeline (attribute parsing order, Crc32/Void appending, duplicate-id check, validate_path, "
          "generated tables): for every accepted declaration the generated table has pairwise distinct ids and reports exactly the declared "
          "type/resolved path per id and unknown/empty otherwise; Crc32/Void/raw-tag present; spec_ok (every named parent is a master) and hence the "
@@ -148,11 +152,14 @@ PROVED = {
          "try_recover never moves backwards and fails only with end of input (all states). Header checks are shown to depend only on the parse fields "
          "of the state. PARTIAL: placeholder-free declared paths; the junk condition is semantic (per position), the generator of the correspondence run "
          "draws junk from byte classes without ids in the specification and computes the premise independently.", ""),
- "C20": ("PARTIAL + known finding D15. Theorem C20_first_read_partial: if the source delivers the whole input (<= 64 KiB) with its first read the "
-         "async iterator yields exactly the abstract reader's run (= the blocking iterator by C04_refines), ending once. C20_refuted exhibits a schedule "
-         "(first read of 1 byte) on which the faithful model differs from the blocking run: the property as stated is violated by nonblocking.rs "
-         "(KNOWN_FINDINGS D15, class 'starved', decided from the schedule and the blocking parse by props/readcheck.py). Non-starved multi-read "
-         "schedules (inputs > 64 KiB in 64 KiB reads, buffered sets, the stream adapter) are covered by correspondence.",
+ "C20": ("PARTIAL + known finding D15. C20_ahead_partial / C20_ahead_blocking (Proofs/AsyncAhead.v): on every schedule that keeps the delivered data "
+         "ahead of the parser (after each call at least 16 unread delivered bytes remain and no end-of-file error is queued, or the source is exhausted; "
+         "Fail-free script; a computable criterion aheadb over the model's run) the non-blocking iterator yields exactly the abstract reader's run = the "
+         "blocking iterator's for every chunking and capacity (C04_refines), for every configuration incl. buffered sets; the criterion subsumes the "
+         "first-read case (C20_ahead_covers_first_read); C20_prefix_monotone — a call of the abstract reader that ends with 16 bytes of slack and no "
+         "queued end-of-file error gives the same result on every extension of the input. C20_refuted exhibits a starved schedule on which the faithful "
+         "model differs from the blocking run: the property as stated is violated by nonblocking.rs (KNOWN_FINDINGS D15, class 'starved', decided from "
+         "the schedule and the blocking parse by props/readcheck.py). The stream adapter is covered by correspondence.",
          "futures' executor/waker protocol is not modelled (the scripted source never returns Pending). "),
 }
 PENDING = {
